@@ -419,10 +419,12 @@ type cannedTransport struct {
 	resp      *http.Response
 	reqHeader http.Header
 	reqBody   []byte
+	method    string
 }
 
 func (t *cannedTransport) Do(req *http.Request) (*http.Response, error) {
 	t.reqHeader = req.Header
+	t.method = req.Method
 	b, _ := io.ReadAll(req.Body)
 	t.reqBody = b
 	_ = req.Body.Close()
@@ -488,4 +490,108 @@ func HarnessC05ReferenceGRPCResponse() {
 	}
 	check(tr.reqHeader.Get("Content-Type") == wantCT, "the gRPC request names its protocol and codec")
 	check(web || tr.reqHeader.Get("Te") == "trailers", "gRPC requests carry TE: trailers")
+}
+
+// HarnessC05ClientWire: what a client writes, judged by the reference rules:
+// POST, the protocol's Content-Type, the protocol's own headers, and - the
+// last clause of the property - a message is marked as compressed (the unary
+// Content-Encoding header, or the envelope flag plus the stream's encoding
+// header) only if it really is; whatever the marking says, a reference
+// decoder recovers the message the application passed in.
+//
+//verif:harness property=C05 stubs=json,wire shard=proto:3
+func HarnessC05ClientWire() {
+	proto := nondetChoice("proto", 3)
+	streaming := nondetBool("streaming")
+	send := nondetBool("sendCompression")
+	minBytes := nondetInt("minBytes")
+	assume(minBytes >= 0 && minBytes <= 3)
+	msg := nondetBytes("msg", bound("clientMsgLen", 2, 3))
+	copts := []ClientOption{WithCodec(&stackCodec{}), WithCompressMinBytes(minBytes), c08XorClient("gzip")}
+	if send {
+		copts = append(copts, WithSendCompression("gzip"))
+	}
+	switch proto {
+	case 1:
+		copts = append(copts, WithGRPC())
+	case 2:
+		copts = append(copts, WithGRPCWeb())
+	}
+	// any well-formed response will do
+	rct := []string{"application/proto", "application/grpc+proto", "application/grpc-web+proto"}[proto]
+	rbody := []byte{7}
+	if proto != 0 || streaming {
+		rbody = refFrame(0, []byte{7})
+		switch {
+		case proto == 0:
+			rct = "application/connect+proto"
+			rbody = append(rbody, refFrame(0x02, c06EndStream(false, nil, "", ""))...)
+		case proto == 2:
+			rbody = append(rbody, refFrame(0x80, []byte("grpc-status: 0\r\n"))...)
+		}
+	}
+	resp := &http.Response{StatusCode: 200, Status: "200 OK", ProtoMajor: 2, Header: http.Header{"Content-Type": {rct}}, Trailer: http.Header{}, Body: io.NopCloser(&wholeReader{data: rbody})}
+	if proto == 1 {
+		resp.Trailer.Set("Grpc-Status", "0")
+	}
+	tr := &cannedTransport{resp: resp}
+	client := NewClient[[]byte, []byte](tr, stackURL, copts...)
+	in := append([]byte{}, msg...)
+	if streaming {
+		stream := client.CallClientStream(context.Background())
+		check(stream.Send(&in) == nil, "sending succeeds")
+		_, err := stream.CloseAndReceive()
+		check(err == nil, "the call succeeds")
+	} else {
+		_, err := client.CallUnary(context.Background(), NewRequest(&in))
+		check(err == nil, "the call succeeds")
+	}
+	h := tr.reqHeader
+	check(tr.method == "POST", "requests are POSTs")
+	unaryConnect := proto == 0 && !streaming
+	wantCT := []string{"application/connect+proto", "application/grpc+proto", "application/grpc-web+proto"}[proto]
+	if unaryConnect {
+		wantCT = "application/proto"
+	}
+	check(h.Get("Content-Type") == wantCT, "the request Content-Type is the protocol's media type with the codec name")
+	if proto == 1 {
+		check(h.Get("Te") == "trailers", "gRPC requests carry TE: trailers")
+	}
+	decode := func(named string, compressed bool, payload []byte) ([]byte, bool) {
+		if !compressed {
+			return payload, true
+		}
+		if named != "gzip" {
+			return nil, false // marked compressed without naming a registered algorithm
+		}
+		if len(payload) == 0 || payload[0] != 0xC5 {
+			return nil, false // marked compressed, but the bytes are not
+		}
+		out := make([]byte, len(payload)-1)
+		for i, b := range payload[1:] {
+			out[i] = b ^ 0x5A
+		}
+		return out, true
+	}
+	if unaryConnect {
+		named := h.Get("Content-Encoding")
+		check(named == "" || named == "identity" || named == "gzip", "the unary encoding header names a registered algorithm")
+		got, ok := decode(named, named != "" && named != "identity", tr.reqBody)
+		check(ok, "a unary request body marked as compressed really is compressed")
+		check(!ok || bytesEq(got, msg), "a reference server recovers the unary request message")
+		return
+	}
+	named := h.Get([]string{"Connect-Content-Encoding", "Grpc-Encoding", "Grpc-Encoding"}[proto])
+	frames, ok := refParseFrames(tr.reqBody)
+	check(ok, "the request body is a whole number of frames")
+	if !ok {
+		return
+	}
+	check(len(frames) == 1, "one message is one frame")
+	for _, f := range frames {
+		check(f.flags&^1 == 0, "request frames carry only the compressed flag")
+		got, dok := decode(named, f.flags&1 != 0, f.payload)
+		check(dok, "a message is flagged compressed only if the encoding header names the algorithm and the bytes are compressed")
+		check(!dok || bytesEq(got, msg), "a reference server recovers the enveloped request message")
+	}
 }
